@@ -2678,6 +2678,7 @@ static void MakeCode_32054x(void) {
 
     ThisRep       = False;
     ForcePageZero = False;
+    OpSize        = Int16; /* for '#' operands of handlers that set no size (STM) */
     if (!LookupInstTable(InstTable, OpPart.str.p_str)) {
         WrStrErrorPos(ErrNum_UnknownInstruction, &OpPart);
     } else {
